@@ -134,9 +134,20 @@ func c18Body(r *Run) {
 			om := cqrs.OriginalMessageFromCtx(m.Context())
 			h := current[om]
 			if h == nil {
+				// (the reply need not travel with the handler's context: its content names the request)
+				if rp, uerr := (requestreply.BackendPubsubJSONMarshaler[c18Result]{}).UnmarshalReply(m); uerr == nil {
+					for _, x := range hs {
+						if x.caller == rp.HandlerResult.Caller && x.attempt == rp.HandlerResult.Attempt {
+							h = x
+						}
+					}
+				}
+			}
+			if h == nil {
 				r.Fail("C18.R2", "a reply was published that belongs to no handled command", "%s", m.UUID)
 				continue
 			}
+			om = h.msg
 			h.pubCall = c
 			if rawClosed(om.Acked()) || rawClosed(om.Nacked()) {
 				r.Fail("C18.R2", "the command was settled before its reply had been published", "caller %d attempt %d", h.caller, h.attempt)
